@@ -873,7 +873,7 @@ def bool_outcomes(p):
                                ("Result::<T, E>::is_ok", "Ok", "Err"), ("Result::<T, E>::is_err", "Err", "Ok")):
             if r[1].endswith(suffix):
                 x = r[2][0]
-                known = p.variant_of(x)
+                known = (x[2],) if (x[0] == "agg" and x[2]) else p.variant_of(x)
                 if known in ((vt,), (vf,)):
                     return [(list(p.atoms), (known == (vt,)) != neg)]
                 return [(list(p.atoms) + [("enum", x, (vt,), None, 10 ** 9)], not neg), (list(p.atoms) + [("enum", x, (vf,), None, 10 ** 9)], neg)]
